@@ -120,8 +120,15 @@ package main
 // GetCurrentState collects failures of its index/collection goroutines through
 // non-blocking sends on `errs` and decides by len(errs) at the end: the channel
 // must be able to hold a report while nobody is receiving.
+//@ spec macro devOK(deviceMount) bool = forall d string :: has(deviceMount, d) && deviceMount[d] != nil ==> d != "" && deviceMount[d].DeviceID == d
 //@ func Balancer.GetCurrentState property C05,C06 safety -bounds,-nil,-makeslice
 //@   at assign errs#1: assert cap(errs) >= 1
+//@   # one index is fetched per device and applied to every mount of that device:
+//@   # the table that names the mount indexed for a device id has no entry for the
+//@   # empty id (mounts that report no device id are never merged with others)
+//@   # and maps an id only to a mount with that id
+//@   loop 1: invariant deviceMount != nil && devOK(deviceMount)
+//@   loop 2: invariant deviceMount != nil && devOK(deviceMount)
 
 // The wire form of a trash / pull request: the bare 32-character hash, the
 // replica's timestamp as recorded in the Trash decision, the UUID of the mount
